@@ -60,8 +60,8 @@ PROPS = {
         'assumptions': [],
     },
     'C14': {
-        'modules': ['SE.Props.C14', 'SE.Gen.TieMapper'],
-        'streams': [{'component': 'mapper_c14', 'note_kinds': {'fresh'}}],
+        'modules': ['SE.Props.C14', 'SE.Gen.TieMapper', 'SE.Gen.TieSync'],
+        'streams': [{'component': 'mapper_c14', 'note_kinds': {'fresh'}}, {'component': 'mapperrace'}],
         'level': 'proof',
         'trusted_base': ["sync.RWMutex semantics (GetMapping and the swap are atomic steps)", "yaml.v2"],
         'assumptions': [],
@@ -137,8 +137,8 @@ PROPS = {
         'assumptions': [_TV_NOTE],
     },
     'C16': {
-        'modules': ['SE.Props.C16', 'SE.Proofs.QueueDriver'],
-        'streams': [{'component': 'queue'}, {'component': 'qconc', 'judge': _qjudge}],
+        'modules': ['SE.Props.C16', 'SE.Proofs.QueueDriver', 'SE.Gen.TieSync'],
+        'streams': [{'component': 'queue'}, {'component': 'queueblk'}, {'component': 'qconc', 'judge': _qjudge}],
         'level': 'proof',
         'trusted_base': ["Go runtime semantics of sync.Mutex and channels (a send blocks while the channel is full; the mutex is held across the send) as encoded in the step relation of SE/Model/Queue.lean", "real goroutine schedules are sampled, not enumerated (the theorems quantify over all schedules of the model's atomic steps)"],
         'assumptions': [],
